@@ -33,9 +33,10 @@ ZForms == { <<"e2fsck", "n">>, <<"e2fsck", "fn">>, <<"e2fsck", "n_b">>, <<"e2fsc
             <<"mke2fs", "n">>, <<"mke2fs", "n_ext4">> }
 \* tools of the property text WITHOUT a -z option (dumpe2fs, e2image, e2freefrag) have no such form
 ZTools == {f[1] : f \in ZForms}
-\* state of the file named by -z before the run: undo_open() creates it, or re-opens it when it is an undo file of
-\* this filesystem (try_reopen_undo_file), or starts over when it is something else
-ZFileStates == {"absent", "finished", "garbage"}
+\* state of the file named by -z before the run: undo_open() creates it; re-opens it when it is a finished undo file whose
+\* superblock copy MATCHES this filesystem (try_reopen_undo_file rewrites its first blocks at once); refuses the open
+\* when it is the undo file of a FOREIGN filesystem (EXT2_ET_UNDO_FILE_WRONG); starts over when it is no undo file
+ZFileStates == {"absent", "matching", "foreign", "garbage"}
 ZInvocations == {[tool |-> f[1], form |-> f[2], zfile |-> z] : f \in ZForms, z \in ZFileStates}
 
 \* ------------------------------------------------------------------------------------------------ 2. image axes
